@@ -121,12 +121,14 @@ theorem mem_keptAfter : ∀ (ss : List Stmt) (before : List Header) (s : Stmt),
           simp [hb]
         · have hc : before.contains (hdr t) = false := by simpa using hb
           simp only [keptAfter, hg, hc, if_true, Bool.false_eq_true, if_false, List.singleton_append,
-            List.mem_cons, ih, List.mem_append, List.mem_singleton]
+            List.mem_cons, ih, List.mem_append]
           rw [← hgs, hg, ← hts]
-          simp only [or_true, not_true_eq_false, false_and, and_false, or_false, true_and, Option.some.injEq]
           constructor
-          · rintro rfl; exact ⟨hb, rfl⟩
-          · rintro ⟨_, e⟩; exact e.symm
+          · rintro (rfl | ⟨_, h2, _⟩)
+            · exact ⟨rfl, hb, rfl⟩
+            · exact absurd (Or.inr (Or.inl rfl)) h2
+          · rintro ⟨_, _, e⟩
+            exact .inl (Option.some.inj e).symm
     · -- another header
       rw [firstOf_cons_ne hts]
       have hne : s ≠ t := fun e => hts (e ▸ rfl)
@@ -137,11 +139,11 @@ theorem mem_keptAfter : ∀ (ss : List Stmt) (before : List Header) (s : Stmt),
       | true =>
         by_cases hb : hdr t ∈ before
         · have hc : before.contains (hdr t) = true := by simpa using hb
-          simp only [keptAfter, hg, hc, if_true, List.nil_append, ih, List.mem_append, List.mem_singleton, hne',
-            or_false]
+          simp only [keptAfter, hg, hc, if_true, List.nil_append, ih, List.mem_append, List.mem_cons, hne',
+            List.not_mem_nil, or_false]
         · have hc : before.contains (hdr t) = false := by simpa using hb
           simp only [keptAfter, hg, hc, if_true, Bool.false_eq_true, if_false, List.singleton_append,
-            List.mem_cons, ih, List.mem_append, List.mem_singleton, hne, hne', or_false, false_or]
+            List.mem_cons, ih, List.mem_append, hne, hne', List.not_mem_nil, or_false, false_or]
 
 theorem mem_kept (ss : List Stmt) (s : Stmt) : s ∈ kept ss ↔ good s = true ∧ firstOf (hdr s) ss = some s := by
   unfold kept
@@ -248,8 +250,8 @@ theorem add_error_eq {r : Registry} {s : Stmt} {e : Registry.AddErr} (h : r.add 
     simp only [hn, if_true]
     repeat' split at h
     all_goals first
-      | (simp only [Except.error.injEq] at h; exact h.symm)
-      | cases h
+      | (cases h; done)
+      | (simp only [Except.error.injEq] at h; rw [← h]; simp [*])
 
 /-- Per load, in load order: refused with which error, or accepted. -/
 def outsAfter (before : List Header) : List Stmt → List Registry.LoadOutcome
@@ -339,7 +341,7 @@ theorem perm_kept_refused : ∀ (ss : List Stmt) (before : List Header),
         exact ((ih _).cons s).trans List.perm_middle.symm
       · have hc : before.contains (hdr s) = false := by simpa using hb
         simp only [keptAfter, refusedAfter, hg, hc, if_true, Bool.false_eq_true, if_false, List.nil_append,
-          List.singleton_append, List.cons_append]
+          List.cons_append]
         exact (ih _).cons s
 
 /-- The loads paired with their outcomes: the accepted ones with `none`, the refused ones with
@@ -363,7 +365,7 @@ theorem zip_outs_perm : ∀ (ss : List Stmt) (before : List Header),
         exact ((ih _).cons _).trans List.perm_middle.symm
       · have hc : before.contains (hdr s) = false := by simpa using hb
         simp only [keptAfter, refusedAfter, outsAfter, hg, hc, if_true, Bool.false_eq_true, if_false,
-          List.nil_append, List.singleton_append, List.zip_cons_cons, List.map_cons, List.cons_append]
+          List.nil_append, List.zip_cons_cons, List.map_cons, List.cons_append]
         exact (ih _).cons _
 
 /-- **With the same first loads, every load has the same outcome in both orders**: the loads
